@@ -32,6 +32,9 @@ def run_property(pid: str, root: str, tier: str, *, overrides=None, write=True, 
     repo = repo or Repo(root, overrides=overrides)
     ctx = Ctx(pid, repo, tier)
     mod.run(ctx)
+    if tier == "thorough":
+        from .extra_who import scan_extra
+        scan_extra(ctx)
     level = getattr(mod, "LEVEL", "other")
     if level == "proof" and (ctx.obligations == 0 or ctx.obligations != ctx.discharged):
         level_eff = "other"
